@@ -38,6 +38,12 @@ def main():
     finally:
         sh(["git", "-C", "/repo", "worktree", "remove", "--force", wt])
         shutil.rmtree(wt, ignore_errors=True)
+        # the alternative build tree of this scratch worktree (a copy of coq/ with its own generated tables): keep only the replay and
+        # evidence files (small), drop the rest -- a thousand of these once filled 47 GB
+        import hashlib
+        alt = os.path.join(V, "build", "alt", hashlib.sha1(wt.encode()).hexdigest()[:10])
+        for sub in ("coq", "cases", "props", "log", "scratch"):
+            shutil.rmtree(os.path.join(alt, sub), ignore_errors=True)
     return 0
 
 
